@@ -112,6 +112,9 @@ def check_acceptance(report, facts, mnemonics, rule):
             continue
         mism = [x for x in compare_with_oracle(s, spec) if x[0].startswith('accepted') or x[0] in ('arity', 'operand')]
         n_ops = len(spec['operands'])
+        if not mism and s.imprecise:
+            raise AnalysisError('{}: accepted set could only be over-approximated (a test on already extracted bits); '
+                                'no verdict on its equality with the legal set'.format(m))
         if not mism:
             report.ok(rule, '{}: accepted set == legal set for {} operand(s)'.format(m, n_ops), nontrivial=n_ops > 0)
         for aspect, msg in mism:
